@@ -29,6 +29,25 @@ def jobs_for(kind, n, seed):
             elif k % 8 == 3:
                 j['ops'] = [dict(at=at, op='stop', state=rnd.choice(['ERROR', 'CANCELLED', 'SUCCESS']))]
         return js
+    if kind == 'reverse':
+        js = ec.reverse_jobs(rnd, n)
+        for k, j in enumerate(js):
+            at = rnd.randint(1, 20)
+            c = k % 5
+            P = j['prog']
+            if c == 1:
+                j['ops'] = [dict(at=at, op='pause'), dict(at=at + rnd.randint(1, 10), op='resume')]
+            elif c == 2:
+                j['dups'] = 2
+            elif c == 3:
+                j['ops'] = [dict(at=at, op='stop', state=rnd.choice(['ERROR', 'CANCELLED', 'SUCCESS']))]
+            elif c == 4:
+                for tag, oc in list(P.oracle.items()):
+                    if oc and oc[-1] == 'err':
+                        P.oracle[tag] = oc + ['ok']
+                j['ops'] = [dict(at=300, op=('skip' if k % 10 == 9 else 'rerun'), reset=bool(k % 2), pick=k)]
+                j['max_steps'] = 900
+        return js
     if kind == 'pb':
         js = ec.random_jobs(rnd, n, schedulers=('default', 'legacy'), label=kind,
                             gen_kw=dict(partial_joins=False, p_join=1.0, p_retry=0.15, p_policy=0.3, p_cmd=0.0, p_err=0.25, p_pause=0.35, policy_on_joins=0.3))
